@@ -7,6 +7,7 @@ mod import_engine;
 mod lazy_engine;
 mod read_paths;
 mod crash_engine;
+mod sched_engine;
 
 fn main() {
     let args = common::Args(std::env::args().skip(1).collect());
@@ -18,6 +19,7 @@ fn main() {
         Some("import") => import_engine::main(&args),
         Some("lazy") => lazy_engine::main(&args),
         Some("crash") => crash_engine::main(&args),
+        Some("sched") => sched_engine::main(&args),
         _ => {
             eprintln!("usage: harness <engine> …");
             2
